@@ -142,6 +142,23 @@ impl<V: Variant> GenModel<V> {
                 if ckey != s.key || snapshot::<V>(&s.gen) != s.key {
                     fault = Some(format!("clone differs from its original (or cloning disturbed it) at n={}", s.n));
                 }
+                // a clone must not share mutable state with its original: continue a second clone with
+                // different bytes, drop it, and observe the original again
+                if fault.is_none() {
+                    let before: Vec<_> = Opts::all().map(|o| catch(|| real_finalize::<V>(&s.gen, &o))).collect();
+                    let mut side = s.gen.clone();
+                    let junk = [0xa5u8, 0x5a, 0x00, 0xff, 0x17, 0x2a, 0x81];
+                    let _ = catch(|| {
+                        side.update(&junk);
+                        side.update(&junk[..3]);
+                        let _ = side.finalize();
+                    });
+                    drop(side);
+                    let after: Vec<_> = Opts::all().map(|o| catch(|| real_finalize::<V>(&s.gen, &o))).collect();
+                    if before != after || snapshot::<V>(&s.gen) != s.key || snapshot::<V>(&clone) != s.key {
+                        fault = Some(format!("updating a clone changed its original (or a sibling clone) at n={}", s.n));
+                    }
+                }
                 Some(St { gen: clone, reference: s.reference.clone(), key: ckey, n: s.n, fault })
             }
         }
